@@ -341,11 +341,13 @@ Fixpoint rejects (c : ctx) (t : tree) : bool :=
 
 (* ------------------------------------------------------------------------------------------ well-formedness *)
 (* What the harness checks of every tree it hands to the model (true of every CPython AST). *)
+Definition is_ctx (k : N) : bool := (k =? K_Load) || (k =? K_Store) || (k =? K_Del).
+
 Definition shape_ok_node (k : N) (li : locinfo) (ch : list tree) : bool :=
   negb (is_scenic k) &&
-  (if k =? K_Name then match li, ch with Located _, [Atom _; Node _ NoAttr []] => true | _, _ => false end
+  (if k =? K_Name then match li, ch with Located _, [Atom _; Node kc NoAttr []] => is_ctx kc | _, _ => false end
    else if k =? K_Call then match li, ch with Located _, [_; Lst _; Lst _] => true | _, _ => false end
-   else if k =? K_Starred then match li, ch with Located _, [Node _ (Located _) _; Node _ NoAttr []] => true | _, _ => false end
+   else if k =? K_Starred then match li, ch with Located _, [Node _ (Located _) _; Node kc NoAttr []] => is_ctx kc | _, _ => false end
    else if k =? K_ClassDef then match li, ch with Located _, _ :: Lst _ :: _ :: Lst _ :: _ => true | _, _ => false end
    else if (k =? K_AnnAssign) || (k =? K_Yield) || (k =? K_YieldFrom) then match li with Located _ => true | _ => false end
    else match li with Missing => false | _ => true end).
@@ -371,6 +373,9 @@ Fixpoint no_missing (t : tree) : bool :=
   | Lst xs => forallb no_missing xs
   | _ => true
   end.
+
+Definition err_loc (e : err) : loc :=
+  match e with EStoreBuiltin l | EStoreTracked l | EAnnAssign l | EYield l => l end.
 
 Definition root_loc (t : tree) : option loc :=
   match t with Node _ (Located l) _ => Some l | _ => None end.
